@@ -5,8 +5,10 @@
 (* Named defect switches (both repaired in the repository, kept for the record):        *)
 (*   DeleteAbsentDropsLast     - delete() removed the last slot when the key was absent *)
 (*   FilterRangesWhileDeleting - Filter ranged over order while delete() shifted it     *)
+(*   FilterDeletesBeforePanic  - Filter removed refused entries from the data as it went: *)
+(*                               a panicking callback left data and order out of step     *)
 EXTENDS Naturals, Sequences, FiniteSets
-CONSTANTS DeleteAbsentDropsLast, FilterRangesWhileDeleting
+CONSTANTS DeleteAbsentDropsLast, FilterRangesWhileDeleting, FilterDeletesBeforePanic
 
 IEmpty == [back |-> <<>>, olen |-> 0, data |-> <<>>]
 Order(m) == SubSeq(m.back, 1, m.olen)
@@ -46,6 +48,15 @@ IFilter(m, keep) ==
   ELSE LET kept == SelectSeq(Order(m), LAMBDA k : <<k, m.data[k]>> \in keep) IN
        [back |-> kept, olen |-> Len(kept), data |-> [x \in {kept[j] : j \in DOMAIN kept} |-> m.data[x]]]
 
+\* Filter with a callback that panics on the keys in PanicAt (the caller recovers). Old code: entries refused before the panic are
+\* already deleted from data, `m.order = kept` is never reached; new code: nothing is touched before every entry has been asked about.
+IFilterPanic(m, keep, PanicAt) ==
+  LET idx == {j \in 1..m.olen : m.back[j] \in PanicAt}
+      stop == IF idx = {} THEN m.olen + 1 ELSE CHOOSE j \in idx : \A q \in idx : j <= q IN
+  IF stop > m.olen THEN IFilter(m, keep)
+  ELSE IF FilterDeletesBeforePanic
+       THEN [m EXCEPT !.data = [x \in {k \in DOMAIN m.data : ~(\E j \in 1..(stop - 1) : m.back[j] = k /\ <<k, m.data[k]>> \notin keep)} |-> m.data[x]]]
+       ELSE m
 IFirstFail(m, FailAt) ==
   LET idx == {j \in 1..m.olen : m.back[j] \in FailAt} IN
   IF idx = {} THEN m.olen + 1 ELSE CHOOSE j \in idx : \A q \in idx : j <= q
